@@ -79,4 +79,7 @@ def selftest(prop, a):
             missed += 0 if caught else 1
         finally:
             undo() if callable(undo) else None
+    if prop == "C05":      # the real interrupt path (specs/solver/Signal.tla) has its own mutants
+        from harness import c05_signal
+        missed += c05_signal.selftest(a)
     return 1 if missed else 0
